@@ -362,7 +362,7 @@ pub fn catch<R>(f: impl FnOnce() -> R) -> Result<R, String> {
 pub fn quiet_panics() {
     std::panic::set_hook(Box::new(|info| {
         if std::env::var("VERIF_SHOW_PANICS").is_ok() {
-            eprintln!("[panic] {}", info);
+            eprintln!("[panic] {}\n{}", info, std::backtrace::Backtrace::force_capture());
         }
         LAST_PANIC_LOCATION.with(|l| {
             *l.borrow_mut() = info.location().map(|l| format!("{}:{}", l.file(), l.line()));
@@ -442,6 +442,14 @@ pub fn run_children(args_list: Vec<Vec<String>>, jobs: usize, timeout_s: u64) ->
                     Some(l) => {
                         let v: Value = serde_json::from_str(&l["CHILD-RESULT ".len()..]).unwrap_or(Value::Null);
                         results.lock().unwrap()[i] = Some(v);
+                    }
+                    None if stdout.lines().any(|l| l.starts_with("CHILD-CRASH ")) => {
+                        let l = stdout.lines().rev().find(|l| l.starts_with("CHILD-CRASH ")).unwrap();
+                        results.lock().unwrap()[i] = Some(json!({
+                            "child_crashed": true,
+                            "crash": &l["CHILD-CRASH ".len()..],
+                            "args": args_list[i],
+                        }));
                     }
                     None => {
                         let stderr = String::from_utf8_lossy(&out.stderr);
